@@ -543,7 +543,7 @@ Definition observe (st : state) : list Z :=
                         | Some (SNum z) => [1; z]
                         | _ => [9] end) [174; 184; 142; 48; 244; 252; 268]
   ++ flat_map (fun n => match lookup n (arrs st) with
-                        | Some (d, els) => [1; d] ++ flat_map (ptr_obs st) (firstn 11 els)
+                        | Some (d, els) => [1; d] ++ flat_map (ptr_obs st) (firstn 13 els)
                         | None => [9] end) [193; 203]
   ++ [scur st; acur st; zlen (stack st); zlen (filter is_strobj (tvals st))].
 
